@@ -40,9 +40,17 @@ func (self *Interpreter) callFunc(span errors.Span, val value.Value, args []ast.
 		}
 
 		self.callStackSize++
+
+		// A function sees the globals of its module and its own locals, never the locals of its caller:
+		// while the function runs, only the root scope of its module and its own scopes are visible.
+		calleeModule := self.currentModule
+		outerScopes := calleeModule.scopes
+		calleeModule.scopes = append(make([]map[string]*value.Value, 0), outerScopes[0])
+
 		self.pushScope()
 		defer func() {
 			self.popScope()
+			calleeModule.scopes = outerScopes
 			self.callStackSize--
 			if previousModule != nil {
 				self.switchModule(*previousModule)
